@@ -1,10 +1,12 @@
 import Blue.Driver.Util
 import Blue.Driver.C14
+import Blue.Driver.C01
 open Blue.Driver
 
 def dispatch (toks : List String) : String :=
   match toks with
   | "setsum" :: rest => Blue.Driver.C14.handle rest
+  | "kvs" :: rest => Blue.Driver.C01.handle rest
   | _ => "bad-op"
 
 partial def loop (h : IO.FS.Stream) (out : IO.FS.Stream) : IO Unit := do
